@@ -171,6 +171,9 @@ func TestVerif_C07_Handler(t *testing.T) {
 							return res
 						})
 						R.Evaluations += st.Executions
+						R.States++
+						R.Transitions += st.Executions
+						R.TracesValidated += st.Executions
 						if len(want) > 1 {
 							R.NonTrivial += st.Executions
 						}
